@@ -639,6 +639,64 @@ func c19RebindCase(seed int64, idx int) (string, c19Case) {
 			}
 			return call("script view of the new native", "main.getnr", fmt.Sprint(a*b+1))
 		},
+		func() string { // natives that leave more values than they declare: the call site gets the first ones
+			m.VM.Set("main.Parse", goatlang.NewFunc(1, 1, func(v *goatlang.VM, args []goatlang.Value) []goatlang.Value {
+				return []goatlang.Value{I(args[0].Int() + 40), goatlang.String("ok"), I(99)}
+			}))
+			m.VM.Set("main.Triple", goatlang.NewFunc(0, 2, func(v *goatlang.VM, args []goatlang.Value) []goatlang.Value {
+				return []goatlang.Value{I(1), I(2), I(3)}
+			}))
+			if e := ev(fmt.Sprintf("px := Parse(%d); t1, t2 := Triple(); func w3() int { q := Parse(%d); u1, u2 := Triple(); Parse(0); return q*100 + u1*10 + u2 }; func getp() int { return px*1000 + t1*10 + t2 }", a, b)); e != "" {
+				return e
+			}
+			if e := call("natives yielding more than declared (top level)", "main.getp", fmt.Sprint((a+40)*1000+12)); e != "" {
+				return e
+			}
+			return call("natives yielding more than declared (inside a function)", "main.w3", fmt.Sprint((b+40)*100+12))
+		},
+		func() string { // one function value under two names; one of the names is set again
+			double := goatlang.NewFunc(1, 1, func(v *goatlang.VM, args []goatlang.Value) goatlang.Value { return I(args[0].Int() * 2) })
+			triple := goatlang.NewFunc(1, 1, func(v *goatlang.VM, args []goatlang.Value) goatlang.Value { return I(args[0].Int() * 3) })
+			m.VM.Set("main.Double", double)
+			m.VM.Set("main.Scale", double)
+			kept := m.VM.Get("main.Scale")
+			m.VM.Set("main.Scale", triple)
+			if e := ev(fmt.Sprintf("dd := Double(%d); ss := Scale(%d); func getdd() int { return dd*1000 + ss }", a, a)); e != "" {
+				return e
+			}
+			if e := call("two names for one native, one of them set again", "main.getdd", fmt.Sprint(a*2*1000+a*3)); e != "" {
+				return e
+			}
+			if o := m.Func(kept, 1, I(b)); o.Failed() || len(o.Rets) != 1 || o.Rets[0] != fmt.Sprint(b*2) {
+				return fmt.Sprintf("a function value fetched before its name was set again: Func = %v %s, want %d", o.Rets, core.ErrFirstLine(o.Err), b*2)
+			}
+			return call("the other name", "main.Double", fmt.Sprint(b*2), I(b))
+		},
+		func() string { // natives registered by a loader under stock names replace the stock ones
+			var seen []string
+			vm2 := goatlang.New(goatlang.WithLoaders(func(v *goatlang.VM) {
+				v.Set("math.Max", goatlang.NewFunc(2, 1, func(v *goatlang.VM, args []goatlang.Value) goatlang.Value {
+					seen = append(seen, "max")
+					return goatlang.Float64(args[0].Float64() + args[1].Float64())
+				}))
+				v.Set("strings.ToLower", goatlang.NewFunc(1, 1, func(v *goatlang.VM, args []goatlang.Value) goatlang.Value {
+					seen = append(seen, "lower")
+					return goatlang.String("<" + args[0].String() + ">")
+				}))
+				v.Set("main.own", goatlang.NewFunc(0, 1, func(v *goatlang.VM) goatlang.Value { return I(7) }))
+			}))
+			var rets []goatlang.Value
+			var err error
+			if p := core.Guard(func() {
+				rets, err = vm2.Eval(core.MapFS(map[string]string{}), "t.go", "import \"math\"; import \"strings\"; x := math.Max(2, 5); y := strings.ToLower(\"AbC\"); z := own(); x; y; z")
+			}); p != "" || err != nil {
+				return fmt.Sprintf("a VM built with loaders fails: %v %s", err, p)
+			}
+			if len(rets) != 3 || rets[0].String() != "7" || rets[1].String() != "<AbC>" || rets[2].String() != "7" || len(seen) != 2 {
+				return fmt.Sprintf("natives registered by a loader under stock names: the script got %v and the loader's natives ran %v; expected [7 <AbC> 7] and [max lower]", rets, seen)
+			}
+			return ""
+		},
 		func() string { // a script variable of function type reassigned
 			if e := ev("handler := func(x int) int { return x + 1 }"); e != "" {
 				return e
